@@ -93,6 +93,131 @@ theorem visit_logIn (ops : Ops) (bi : List (String × Val)) : ∀ (tbl : Tbl) (e
       split
       · exact LogIn.pure _ _
       · exact LogIn.bind (LogIn.lift _ _) (fun r => LogIn.bind (LogIn.record i r (by simp)) (fun _ => LogIn.pure _ _))
+  | tbl, .starred i e => by
+      simp only [visit, allIds]
+      exact LogIn.err _ _
+  | tbl, .coll i kind es => by
+      simp only [visit, allIds]
+      refine LogIn.bind ((visitElts_logIn ops bi tbl es).mono (by simp +contextual)) (fun vs => ?_)
+      refine LogIn.bind (LogIn.lift _ _) (fun r => ?_)
+      exact LogIn.ite (LogIn.pure _ _) (LogIn.bind (LogIn.record i r (by simp)) (fun _ => LogIn.pure _ _))
+  | tbl, .dict i items => by
+      simp only [visit, allIds]
+      refine LogIn.bind ((visitItems_logIn ops bi tbl _ _ items).mono (by simp +contextual)) (fun x => ?_)
+      obtain ⟨d, ph⟩ := x
+      exact LogIn.ite (LogIn.pure _ _) (LogIn.bind (LogIn.record i d (by simp)) (fun _ => LogIn.pure _ _))
+  | tbl, .slice i lo hi step => by
+      simp only [visit, allIds]
+      refine LogIn.bind ((visitOpt_logIn ops bi tbl lo).mono (by simp +contextual)) (fun l? => ?_)
+      refine LogIn.bind ((visitOpt_logIn ops bi tbl hi).mono (by simp +contextual)) (fun h? => ?_)
+      refine LogIn.bind ((visitOpt_logIn ops bi tbl step).mono (by simp +contextual)) (fun s? => ?_)
+      split
+      · exact LogIn.bind (LogIn.record i _ (by simp)) (fun _ => LogIn.pure _ _)
+      · exact LogIn.pure _ _
+  | tbl, .callkw i f args kws => by
+      simp only [visit, allIds]
+      refine LogIn.bind ((visit_logIn ops bi tbl f).mono (by simp +contextual)) (fun f? => ?_)
+      cases f? with
+      | none => exact LogIn.pure _ _
+      | some fv =>
+        refine LogIn.bind ((visitArgs_logIn ops bi tbl args).mono (by simp +contextual)) (fun avs? => ?_)
+        cases avs? with
+        | none => exact LogIn.pure _ _
+        | some avs =>
+          refine LogIn.bind ((visitKws_logIn ops bi tbl _ kws).mono (by simp +contextual)) (fun kvs => ?_)
+          refine LogIn.ite (LogIn.pure _ _) ?_
+          exact LogIn.bind (LogIn.lift _ _) (fun r => LogIn.bind (LogIn.record i r (by simp)) (fun _ => LogIn.pure _ _))
+  | tbl, .fvalue i e conv none => by
+      simp only [visit, allIds]
+      refine LogIn.bind (LogIn.pure _ _) (fun sp? => ?_)
+      refine LogIn.bind ((visit_logIn ops bi tbl e).mono (by simp +contextual)) (fun v? => ?_)
+      split
+      · exact LogIn.bind (LogIn.lift _ _) (fun r => LogIn.pure _ _)
+      · exact LogIn.pure _ _
+  | tbl, .fvalue i e conv (some sp) => by
+      simp only [visit, allIds, allIdsOpt]
+      refine LogIn.bind ?_ (fun sp? => ?_)
+      · exact LogIn.bind ((visit_logIn ops bi tbl sp).mono (by simp +contextual)) (fun _ => LogIn.pure _ _)
+      · refine LogIn.bind ((visit_logIn ops bi tbl e).mono (by simp +contextual)) (fun v? => ?_)
+        split
+        · exact LogIn.bind (LogIn.lift _ _) (fun r => LogIn.pure _ _)
+        · exact LogIn.pure _ _
+  | tbl, .fstring i parts => by
+      simp only [visit, allIds]
+      refine LogIn.bind ((visitList_logIn ops bi tbl parts).mono (by simp +contextual)) (fun vs => ?_)
+      refine LogIn.ite (LogIn.pure _ _) ?_
+      exact LogIn.bind (LogIn.lift _ _) (fun r => LogIn.bind (LogIn.record i r (by simp)) (fun _ => LogIn.pure _ _))
+theorem visitElts_logIn (ops : Ops) (bi : List (String × Val)) : ∀ (tbl : Tbl) (es : List Expr),
+    LogIn (visitElts ops bi tbl es) (allIdsList es)
+  | tbl, [] => by simp only [visitElts]; exact LogIn.pure _ _
+  | tbl, e :: rest => by
+      have ih := fun {α} (f : List (Option Val) → VRes α) (hf : ∀ vs, LogIn (f vs) (allIds e ++ allIdsList rest)) =>
+        LogIn.bind ((visitElts_logIn ops bi tbl rest).mono (T := allIds e ++ allIdsList rest) (by simp +contextual)) hf
+      cases e with
+      | starred j e' =>
+        simp only [visitElts, allIdsList, allIds] at ih ⊢
+        refine LogIn.bind ((visit_logIn ops bi tbl e').mono (by simp +contextual)) (fun s? => ?_)
+        cases s? with
+        | none => exact ih _ (fun vs => LogIn.pure _ _)
+        | some s => exact LogIn.bind (LogIn.lift _ _) (fun xs => ih _ (fun vs => LogIn.pure _ _))
+      | _ =>
+        simp only [visitElts, allIdsList] at ih ⊢
+        refine LogIn.bind ((visit_logIn ops bi tbl _).mono (by simp +contextual)) (fun v => ?_)
+        exact ih _ (fun vs => LogIn.pure _ _)
+theorem visitArgs_logIn (ops : Ops) (bi : List (String × Val)) : ∀ (tbl : Tbl) (es : List Expr),
+    LogIn (visitArgs ops bi tbl es) (allIdsList es)
+  | tbl, [] => by simp only [visitArgs]; exact LogIn.pure _ _
+  | tbl, e :: rest => by
+      have ih := fun {α} (f : Option (List (Option Val)) → VRes α) (hf : ∀ vs, LogIn (f vs) (allIds e ++ allIdsList rest)) =>
+        LogIn.bind ((visitArgs_logIn ops bi tbl rest).mono (T := allIds e ++ allIdsList rest) (by simp +contextual)) hf
+      cases e with
+      | starred j e' =>
+        simp only [visitArgs, allIdsList, allIds] at ih ⊢
+        refine LogIn.bind ((visit_logIn ops bi tbl e').mono (by simp +contextual)) (fun s? => ?_)
+        cases s? with
+        | none => exact LogIn.pure _ _
+        | some s => exact LogIn.bind (LogIn.lift _ _) (fun xs => ih _ (fun vs => LogIn.pure _ _))
+      | _ =>
+        simp only [visitArgs, allIdsList] at ih ⊢
+        refine LogIn.bind ((visit_logIn ops bi tbl _).mono (by simp +contextual)) (fun v => ?_)
+        exact ih _ (fun vs => LogIn.pure _ _)
+theorem visitKws_logIn (ops : Ops) (bi : List (String × Val)) : ∀ (tbl : Tbl) (acc : List (String × Option Val))
+    (kws : List (Option String × Expr)), LogIn (visitKws ops bi tbl acc kws) (allIdsKws kws)
+  | tbl, acc, [] => by simp only [visitKws]; exact LogIn.pure _ _
+  | tbl, acc, (some k, e) :: rest => by
+      simp only [visitKws, allIdsKws]
+      refine LogIn.bind ((visit_logIn ops bi tbl e).mono (by simp +contextual)) (fun v => ?_)
+      exact (visitKws_logIn ops bi tbl _ rest).mono (by simp +contextual)
+  | tbl, acc, (none, e) :: rest => by
+      simp only [visitKws, allIdsKws]
+      refine LogIn.bind ((visit_logIn ops bi tbl e).mono (by simp +contextual)) (fun u? => ?_)
+      cases u? with
+      | none => exact LogIn.err _ _
+      | some u =>
+        exact LogIn.bind (LogIn.lift _ _) (fun kvs => (visitKws_logIn ops bi tbl _ rest).mono (by simp +contextual))
+theorem visitItems_logIn (ops : Ops) (bi : List (String × Val)) : ∀ (tbl : Tbl) (d : Val) (ph : Bool)
+    (items : List (Option Expr × Expr)), LogIn (visitItems ops bi tbl d ph items) (allIdsItems items)
+  | tbl, d, ph, [] => by simp only [visitItems]; exact LogIn.pure _ _
+  | tbl, d, ph, (none, e) :: rest => by
+      simp only [visitItems, allIdsItems, allIdsOpt]
+      refine LogIn.bind ((visit_logIn ops bi tbl e).mono (by simp +contextual)) (fun u? => ?_)
+      cases u? with
+      | none => exact (visitItems_logIn ops bi tbl _ _ rest).mono (by simp +contextual)
+      | some u =>
+        exact LogIn.bind (LogIn.lift _ _) (fun d' => (visitItems_logIn ops bi tbl _ _ rest).mono (by simp +contextual))
+  | tbl, d, ph, (some k, e) :: rest => by
+      simp only [visitItems, allIdsItems, allIdsOpt]
+      refine LogIn.bind ((visit_logIn ops bi tbl e).mono (by simp +contextual)) (fun v? => ?_)
+      refine LogIn.bind ((visit_logIn ops bi tbl k).mono (by simp +contextual)) (fun k? => ?_)
+      split
+      · exact LogIn.bind (LogIn.lift _ _) (fun d' => (visitItems_logIn ops bi tbl _ _ rest).mono (by simp +contextual))
+      · exact (visitItems_logIn ops bi tbl _ _ rest).mono (by simp +contextual)
+theorem visitOpt_logIn (ops : Ops) (bi : List (String × Val)) : ∀ (tbl : Tbl) (o : Option Expr),
+    LogIn (visitOpt ops bi tbl o) (allIdsOpt o)
+  | tbl, none => by simp only [visitOpt]; exact LogIn.pure _ _
+  | tbl, some e => by
+      simp only [visitOpt, allIdsOpt]
+      exact visit_logIn ops bi tbl e
 theorem visitList_logIn (ops : Ops) (bi : List (String × Val)) : ∀ (tbl : Tbl) (es : List Expr),
     LogIn (visitList ops bi tbl es) (allIdsList es)
   | tbl, [] => by simp only [visitList]; exact LogIn.pure _ _
